@@ -42,6 +42,9 @@ type Params struct {
 	NoPreInit  bool // leave Joe's initialisation to whichever thread comes first
 	// Shutdown2: a second thread calls Shutdown concurrently as well.
 	Shutdown2 bool
+	// ShutCtx: the concurrent Shutdown is given a context that another thread cancels at any moment (a shutdown
+	// deadline that runs out while Joe is busy); the final Shutdown(background) still follows.
+	ShutCtx bool
 	// Inner ("finite" / "valid", automatic IDs): a real replayer holding History messages published beforehand;
 	// every subscriber presents the ID of the first one, so its replay consists of real Send/Flush calls.
 	Inner   string
@@ -61,6 +64,9 @@ func (p Params) Name() string {
 	extra := ""
 	if p.Shutdown2 {
 		extra += "-shut2"
+	}
+	if p.ShutCtx {
+		extra += "-shutctx"
 	}
 	if p.Inner != "" {
 		extra += fmt.Sprintf("-%s-h%d", p.Inner, p.History)
@@ -151,7 +157,11 @@ func body(p Params) func() {
 				}
 			}))
 		}
-		if p.Shutdown {
+		if p.Shutdown && p.ShutCtx {
+			dc := vrt.NewCtx("shutdown")
+			others = append(others, vrt.GoNamed("XD", func() { dc.Cancel() }))
+			others = append(others, vrt.GoNamed("D", func() { w.ShutErr = j.Shutdown(dc) }))
+		} else if p.Shutdown {
 			others = append(others, vrt.GoNamed("D", func() { w.ShutErr = j.Shutdown(context.Background()) }))
 		}
 		if p.Shutdown2 {
@@ -302,6 +312,13 @@ func Scenarios(tier string) []run.Scenario {
 		}
 	}
 	add(Params{NPub: 1, Shutdown: true, Shutdown2: true, NoPreInit: true, Preempt: -1})
+	// a Shutdown whose context is cancelled while Joe is busy with a delivery
+	for _, sc := range []Script{{}, {FailAt: 1}, {FailAt: 2}} {
+		for _, canc := range bools {
+			add(Params{Subs: []Script{sc}, Canceller: canc, NPub: 2, Shutdown: true, ShutCtx: true, Preempt: -1})
+		}
+		add(Params{Subs: []Script{sc, {}}, NPub: 1, Shutdown: true, ShutCtx: true, Preempt: -1})
+	}
 	// real replayers with a history: the subscriber's writer fails during the replay (Send, Flush) or after it
 	for _, inner := range []string{"finite", "valid"} {
 		for h := 2; h <= 3; h++ {
@@ -331,7 +348,7 @@ func Scenarios(tier string) []run.Scenario {
 
 var Check = &run.Check{
 	ID: "C06", Level: "model_checking",
-	Rule: "Scenarios: 1-3 subscribers whose MessageWriter fails at its k-th Send/Flush call (k enumerated; with and without cancelling the subscriber's context in the same step, as net/http does) x canceller threads x publisher x concurrent Shutdown x replayer whose Replay fails or whose k-th Put rejects the message; two Shutdown calls racing each other; real FiniteReplayer / ValidReplayer holding 2-3 events, the subscriber resuming from the first one with a writer that fails at any call of the replay or after it (also on a wrapped ring of 4 whose replay starts in the last slot); per scenario all interleavings at synchronisation operations (unbounded with state-key pruning unless the scenario name says pb>=0), all select tie-breaks and all map orders are explored.",
+	Rule: "Scenarios: 1-3 subscribers whose MessageWriter fails at its k-th Send/Flush call (k enumerated; with and without cancelling the subscriber's context in the same step, as net/http does) x canceller threads x publisher x concurrent Shutdown x replayer whose Replay fails or whose k-th Put rejects the message; two Shutdown calls racing each other; a Shutdown whose context another thread cancels at any moment; real FiniteReplayer / ValidReplayer holding 2-3 events, the subscriber resuming from the first one with a writer that fails at any call of the replay or after it (also on a wrapped ring of 4 whose replay starts in the last slot); per scenario all interleavings at synchronisation operations (unbounded with state-key pruning unless the scenario name says pb>=0), all select tie-breaks and all map orders are explored.",
 	Assumptions: []string{
 		"schedules are explored at the granularity of synchronisation operations under sequential consistency (DESIGN.md 2.1)",
 		"a panic reaching the top of a goroutine is process death",
